@@ -201,6 +201,8 @@ func runC01(c *eng.Ctx) {
 	// ---- 2c. rollup: three ordered manifest commits (target output+references, source marks, target references dropped) -----------
 	c.Rule("ORDER", "kv.family.rollup{commit<clean references}", func() { rollupCommitBeforeClean(c) })
 
+	c.Rule("GUARD", "kv{a table builder is abandoned only when it holds no key}", func() { abandonOnlyWhenNoKeys(c) })
+
 	// ---- 3. compaction ---------------------------------------------------------------------------------------------
 	c.Rule("ORDER", cjT+"{close<register; merge(ok)<install; cleanup after install}", func() {
 		f := c.Fn(cjT + ".finishCompactionOutputFile")
@@ -379,7 +381,9 @@ func runC01(c *eng.Ctx) {
 			}
 			nTorn++
 			fs := rfacts.At(r)
-			excl := rfacts.Find(fs, "false", func(d string, _ ssa.Value) bool { return strings.Contains(d, "errors.Is(") && strings.Contains(d, "ErrUnexpectedEOF") }, nil)
+			excl := rfacts.Find(fs, "false", func(d string, _ ssa.Value) bool {
+				return strings.Contains(d, "errors.Is(") && strings.Contains(d, "ErrUnexpectedEOF")
+			}, nil)
 			excl = append(excl, rfacts.Find(fs, "ne", func(d string, _ ssa.Value) bool { return strings.Contains(d, "Read()") }, func(d string, _ ssa.Value) bool { return strings.Contains(d, "ErrUnexpectedEOF") })...)
 			c.Check(len(excl) > 0, fmt.Sprintf("torn-final-record-is-end-of-log[%d]", nTorn), r, rc,
 				"replay fails for a read error only when it is not io.ErrUnexpectedEOF: a record cut short can only be the last one — the commit that was being appended when the process died, never acknowledged — and every commit before it must stay readable",
